@@ -183,6 +183,24 @@ PROPS = {
         trusted=["simnet streams + synctest virtual time", "which concurrent caller wins the per-peer lock is not modelled in the driver (bursts run against healthy remotes); every interleaving is covered by the lock-protocol theorems"],
         shards={"quick": 8, "thorough": 16},
     ),
+    "C12": dict(
+        pkg=".", test="TestVerifC12", model="C12", verdict="C12v", level="proof", diff_is_failure=False, also=["C12r"],
+        rule="a case is a history of identification-completed / protocols-updated events (protocol and routing-table filter set per "
+             "peer), admission-probe outcomes (answer, empty answer, failure) and whole lookups with scripted per-peer outcomes "
+             "(answer naming other peers, request failure, dial failure) and an optional cancellation after k outcomes, on a real "
+             "IpfsDHT over the scripted network, below bucket capacity; RoutingTable().ListPeers() and the probes in flight are "
+             "compared with the model after every event; refresh requests racing Close and liveness evictions run against the real "
+             "RtRefreshManager (sibling harness); non-trivial = >=2 lookups; distinct = case text",
+        trusted=["scripted MessageSender + simnet + synctest", "go-libp2p-kbucket TryAddPeer/RemovePeer (dependency; the table stays below bucket capacity)"],
+        shards={"quick": 8, "thorough": 16},
+    ),
+    # sibling harness of C12: the real RtRefreshManager (not a property of its own)
+    "C12r": dict(
+        pkg="./rtrefresh", test="TestVerifC12r", model="C12r", verdict="C12rv", level="proof", diff_is_failure=False,
+        accept=lambda m, o: m == "-" or all((" " + t + " ") in (" " + o + " ") for t in m.split(" ")),
+        rule="refresh requests (forced or not), waits and Close on the real RtRefreshManager with members of different ages whose "
+             "liveness probe answers, fails, hangs or cannot be dialled, and queries that succeed, fail or hang", trusted=[], shards={"quick": 4, "thorough": 16},
+    ),
     "C08": dict(
         pkg=".", test="TestVerifC08", model="C08", verdict="C08v", level="proof", diff_is_failure=True, also=["C15"],
         accept=lambda m, o: m == "-" or m == "pseq=*" or (" " + m + " ") in (" " + o + " "),
